@@ -40,6 +40,18 @@ class Inliner:
                 decs = [norm(d).split(".")[-1] for d in hf.node.decorator_list]
                 if any(d not in ("classmethod", "staticmethod") for d in decs):
                     return None
+        elif isinstance(call.func, ast.Attribute) and isinstance(call.func.value, ast.Name) and call.func.attr.startswith("_") and not call.func.attr.startswith("__"):
+            # a private class-level decoding helper of another class of the package, called on the class: LDAPResult._unpack(reader, ...)
+            cq = self.m.resolve_name(module, call.func.value.id)
+            if cq in self.m.classes:
+                hf = self.m.find_method(cq, call.func.attr)
+                if hf is not None and not isinstance(hf.node, ast.Lambda):
+                    decs = [norm(d).split(".")[-1] for d in hf.node.decorator_list]
+                    if sorted(decs) not in (["classmethod"], ["staticmethod"]):
+                        return None
+                    # the method must not be overridden below the class it is called on (cls is that very class)
+                    if any(k != cq and self.m.find_method(k, call.func.attr) is not hf for k in self.m.subclasses(cq)):
+                        return None
         if hf is None or hf.module != module or isinstance(hf.node, ast.Lambda) or stack.count(hf.qualname) >= 2:
             return None
         anns = [norm(a.annotation) if a.annotation is not None else "" for a in hf.node.args.args + hf.node.args.kwonlyargs]
